@@ -5,6 +5,16 @@ from common import Rng
 import pytrs
 from pytrs import TRS
 
+
+def safely(rep, what, f, *a):
+    """run one oracle check; an exception escaping the library is itself a failing input for the observables"""
+    try:
+        return f(rep, *a)
+    except Exception as e:  # noqa
+        rep.violation('failing-input', {'check': what, 'args': [str(x)[:300] for x in a], 'why': f'raised {type(e).__name__}: {e}'})
+        return None
+
+
 RULE = ("(twp 0..999, ns, rge 0..999, ew, sec 0..99) x input encodings (int / digit str / str with direction letter) "
         "for the round trip; single and double edits (insert/delete/substitute/prefix/suffix over "
         "'0-9 n s e w N S E W X z _ a space') of valid and placeholder TRS strings for strictness; non-trivial = every "
@@ -140,7 +150,7 @@ def run(ctx):
         t = r.choice(edge) if r.chance(1, 3) else r.range(0, 999)
         rg = r.choice(edge) if r.chance(1, 3) else r.range(0, 999)
         sec = r.choice([0, 1, 9, 10, 36, 99]) if r.chance(1, 3) else r.range(0, 99)
-        check_roundtrip(rep, t, r.choice('ns'), rg, r.choice('ew'), sec, r.below(5), items)
+        safely(rep, 'roundtrip', check_roundtrip, t, r.choice('ns'), rg, r.choice('ew'), sec, r.below(5), items)
     bases = []
     for i in range(ctx.budget(2500, 60000)):
         r = rng.fork(500000 + i)
@@ -155,7 +165,7 @@ def run(ctx):
         s = base if r.chance(1, 5) else edits(base, r, 1 if r.chance(2, 3) else 2)
         if r.chance(1, 6):
             s = s.upper() if r.chance(1, 2) else s.swapcase()
-        check_strict(rep, s, items)
+        safely(rep, 'strict', check_strict, s, items)
         rep.sample({'input': s, 'expected_trs': recognise(s)}, cap=6)
         rep.dist('c12_kind', 'standard' if recognise(s) not in ('XXXzXXXzXX',) else 'rejected')
     ctx.compare(items)
